@@ -574,7 +574,13 @@ fn gen_program(rng: &mut Rng, o: &Opts) -> String {
     let mut meta: Vec<String> = vec![];
     for k in ["t", "a", "s", "k", "c", "p"] {
         if rng.chance(1, 3) {
-            meta.push(format!("{}={}", k, hex(gen_ascii(rng).as_bytes())));
+            // Info strings: ASCII with delimiters, sometimes Latin-1 letters (written as UTF-8
+            // bytes by the writer, read back byte by byte through WinAnsi: "é" comes back as "Ã©")
+            let mut v = gen_ascii(rng);
+            if rng.chance(1, 4) {
+                v.push_str(" caf\u{e9} \u{a9}\u{ff}\u{a0}");
+            }
+            meta.push(format!("{}={}", k, hex(v.as_bytes())));
         }
     }
     if rng.chance(1, 4) {
@@ -611,6 +617,17 @@ fn gen(rng: &mut Rng, tier: Tier) -> Vec<Case> {
         ("t=4e6f20706167657320286f646429!0".to_string(), "zero-pages"),
         ("-!P,595,842".to_string(), "empty-page"),
         ("-!P,0.01,0.01;R,270".to_string(), "tiny-page"),
+        (
+            format!(
+                "t=63616663c3a9!{}",
+                [44, 45, 134, 135, 224, 225, 315, 316, -1, -44, -45, -90, 359, 360, 404, 405, 450, 720, -360]
+                    .iter()
+                    .map(|r| format!("P,10,20;R,{}", r))
+                    .collect::<Vec<_>>()
+                    .join("|")
+            ),
+            "rotation-boundaries",
+        ),
         ((0..40).map(|i| format!("P,{},{};m,{},0;l,0,{};S", 100 + i, 200 + i, i, i)).collect::<Vec<_>>().join("|").replacen("P,", "-!P,", 1), "many-pages"),
     ] {
         for cfg in ["c:n:1.4", "c:z:1.7", "x:z:1.5"] {
@@ -630,21 +647,25 @@ fn gen(rng: &mut Rng, tier: Tier) -> Vec<Case> {
         for c in ["c:z", "c:n", "x:z"] {
             push(format!("{}:{}", c, v), &prog, "doc");
         }
+        // `use_object_streams` without an xref stream: objects are written uncompressed
+        // (since /repo 4d9cdfbe; before, they were unreachable)
+        if i % 4 == 1 {
+            push(format!("{}:{}", if i % 8 == 1 { "o:z" } else { "o:n" }, v), &prog, "doc");
+        }
         // … and under the configuration with the raw cross-reference stream (unreadable for a strict
         // reader until /repo 67304722)
         if i % 4 == 0 {
             push(format!("x:n:{}", v), &prog, "doc");
         }
     }
-    // object-stream configurations write 10^6 free entries (ids from 1 000 000): heavy, a handful
+    // `xo` (object streams + xref stream) writes 10^6 free entries (stream ids start at
+    // 1 000 000): heavy — one document in the quick tier (plus one in the corpus), the rest in
+    // the thorough tier
     for i in 0..nheavy {
         let o = Opts { min_pages: 1, max_pages: 3, max_ops: 10 };
         let prog = gen_program(rng, &o);
         let v = *rng.pick(&versions[2..]);
         push(format!("xo:z:{}", v), &prog, "doc-objstm");
-        if i % 3 == 0 {
-            push(format!("o:z:{}", v), &prog, "doc-objstm");
-        }
         if i % 3 == 1 {
             push(format!("xo:n:{}", v), &prog, "doc-objstm");
         }
